@@ -53,12 +53,30 @@ pub(super) fn any_chars() -> [char; K] {
     [kani::any(), kani::any(), kani::any()]
 }
 
+/// one representative per (UTF-8 length, UTF-16 length, newline-ness) class
+pub(super) fn any_class_char() -> char {
+    let k: u8 = kani::any();
+    kani::assume(k < 7);
+    match k {
+        0 => 'a',
+        1 => '\n',
+        2 => '\r',
+        3 => '\u{e9}',      // 2 bytes, 1 unit
+        4 => '\u{20ac}',    // 3 bytes, 1 unit
+        5 => '\u{1f600}',   // 4 bytes, 2 units (astral)
+        _ => ' ',
+    }
+}
+pub(super) fn any_class_chars() -> [char; K] {
+    [any_class_char(), any_class_char(), any_class_char()]
+}
+
 macro_rules! lsp_h_line_col {
-    ($name:ident, $n:expr) => {
+    ($name:ident, $n:expr, $gen:ident) => {
         #[kani::proof]
-        #[kani::unwind(14)]
+        #[kani::unwind(6)]
         fn $name() {
-            let chars = any_chars();
+            let chars = $gen();
             let s = text_of(&chars, $n);
             let k: usize = kani::any();
             kani::assume(k <= $n);
@@ -72,11 +90,11 @@ macro_rules! lsp_h_line_col {
 }
 
 macro_rules! lsp_h_roundtrip {
-    ($name:ident, $n:expr) => {
+    ($name:ident, $n:expr, $gen:ident) => {
         #[kani::proof]
-        #[kani::unwind(14)]
+        #[kani::unwind(6)]
         fn $name() {
-            let chars = any_chars();
+            let chars = $gen();
             let s = text_of(&chars, $n);
             let k: usize = kani::any();
             kani::assume(k <= $n);
@@ -91,11 +109,11 @@ macro_rules! lsp_h_roundtrip {
 }
 
 macro_rules! lsp_h_position {
-    ($name:ident, $n:expr) => {
+    ($name:ident, $n:expr, $gen:ident) => {
         #[kani::proof]
-        #[kani::unwind(14)]
+        #[kani::unwind(6)]
         fn $name() {
-            let chars = any_chars();
+            let chars = $gen();
             let s = text_of(&chars, $n);
             // (a) the position of every boundary maps to that boundary's byte offset
             let k: usize = kani::any();
@@ -120,15 +138,15 @@ macro_rules! lsp_h_position {
     };
 }
 
-// @unit id=lsp.offset_to_line_col props=C14 tier=quick kind=bounded bound="texts of exactly 3 chars, each over the full char domain; every boundary offset" timeout=2400 fn=offset_to_line_col,offset_to_position
-lsp_h_line_col!(lsp_offset_to_line_col, 3);
-// @unit id=lsp.roundtrip props=C14 tier=quick kind=bounded bound="texts of exactly 3 chars, each over the full char domain; every boundary offset" timeout=2400 fn=position_to_offset,offset_to_position,offset_to_line_col
-lsp_h_roundtrip!(lsp_roundtrip, 3);
-// @unit id=lsp.position_to_offset props=C14 tier=quick kind=bounded bound="texts of exactly 3 chars, each over the full char domain; every editor position (boundary, past line end, past last line)" timeout=2400 fn=position_to_offset
-lsp_h_position!(lsp_position_to_offset, 3);
-// @unit id=lsp.offset_to_line_col.n2 props=C14 tier=thorough kind=bounded bound="texts of exactly 2 chars, full char domain" timeout=2400 fn=offset_to_line_col,offset_to_position
-lsp_h_line_col!(lsp_offset_to_line_col_n2, 2);
-// @unit id=lsp.roundtrip.n2 props=C14 tier=thorough kind=bounded bound="texts of exactly 2 chars, full char domain" timeout=2400 fn=position_to_offset,offset_to_position,offset_to_line_col
-lsp_h_roundtrip!(lsp_roundtrip_n2, 2);
-// @unit id=lsp.position_to_offset.n2 props=C14 tier=thorough kind=bounded bound="texts of exactly 2 chars, full char domain" timeout=2400 fn=position_to_offset
-lsp_h_position!(lsp_position_to_offset_n2, 2);
+// @unit id=lsp.offset_to_line_col.n2 props=C14 tier=quick kind=bounded bound="texts of exactly 2 chars, each over the FULL char domain; every boundary offset" timeout=2400 fn=offset_to_line_col,offset_to_position
+lsp_h_line_col!(lsp_offset_to_line_col_n2, 2, any_chars);
+// @unit id=lsp.offset_to_line_col props=C14 tier=thorough kind=bounded bound="texts of exactly 3 chars, each over the FULL char domain; every boundary offset" timeout=3600 fn=offset_to_line_col,offset_to_position
+lsp_h_line_col!(lsp_offset_to_line_col, 3, any_chars);
+// @unit id=lsp.roundtrip.n2 props=C14 tier=thorough kind=bounded bound="texts of exactly 2 chars, FULL char domain" timeout=3600 fn=position_to_offset,offset_to_position,offset_to_line_col
+lsp_h_roundtrip!(lsp_roundtrip_n2, 2, any_chars);
+// @unit id=lsp.roundtrip.cls props=C14 tier=quick kind=bounded bound="texts of exactly 3 chars, each one of 7 class representatives (ASCII, LF, CR, 2-byte, 3-byte, astral, space)" timeout=2400 fn=position_to_offset,offset_to_position,offset_to_line_col
+lsp_h_roundtrip!(lsp_roundtrip_cls, 3, any_class_chars);
+// @unit id=lsp.position_to_offset.cls props=C14 tier=quick kind=bounded bound="texts of exactly 3 chars, each one of 7 class representatives; every editor position (boundary, past line end, past last line)" timeout=2400 fn=position_to_offset
+lsp_h_position!(lsp_position_to_offset_cls, 3, any_class_chars);
+// @unit id=lsp.position_to_offset.n2 props=C14 tier=thorough kind=bounded bound="texts of exactly 2 chars, FULL char domain" timeout=3600 fn=position_to_offset
+lsp_h_position!(lsp_position_to_offset_n2, 2, any_chars);
